@@ -110,10 +110,15 @@ def run_case(col, case, sub):
     chunks = list(chunking.chunks(data, case['schedule']))
     sizes = chunking.sizes_of(case['schedule'], len(data))
     mode = case.get('mode', 'read')
-    if mode == 'read':
+    if mode in ('read', 'short'):
         # the reader goes on to the EOF read, which yields an empty chunk
         chunks = chunks + [b'']
-        sizes = sizes + [1]
+        if mode == 'short':
+            # pipe-like source: the reader asks for more than it gets
+            asks = [max(65536, 2 * sz + 1) for sz in sizes] + [65536]
+        else:
+            asks = sizes + [1]
+        sizes = asks
     plan = {k: tuple(v) for k, v in (case.get('plan') or {}).items()}
     expected = case.get('expected')
     allowed = case.get('allowed')
@@ -184,9 +189,17 @@ def run_case(col, case, sub):
 
     F.ALL_FORMATS.clear()
     F.ALL_FORMATS.update({n: make(n, o) for n, o in originals.items()})
+    import logging
+    lg = logging.getLogger('oslo_utils.imageutils.format_inspector')
+    saved_level = lg.level
+    if case.get('loglevel'):
+        lg.setLevel(getattr(logging, case['loglevel']))
     try:
         if mode == 'read':
             src = io.BytesIO(data)
+        elif mode == 'short':
+            src = imgdrive.ShortReadSource(
+                data, chunking.sizes_of(case['schedule'], len(data)))
         else:
             src = _CountingIter(chunks)
         w = F.InspectWrapper(src, expected_format=expected,
@@ -195,7 +208,7 @@ def run_case(col, case, sub):
         raised = None
         for k in range(len(chunks)):
             try:
-                if mode == 'read':
+                if mode in ('read', 'short'):
                     c = w.read(sizes[k])
                 else:
                     c = next(w)
@@ -205,16 +218,23 @@ def run_case(col, case, sub):
                 raised = (k, e)
                 break
             got.append(c)
-            if c != chunks[k]:
+            if mode == 'short':
+                # a pipe-like source: the statement fixes the bytes and
+                # their order, not how the wrapper groups them into reads
+                if len(c) > sizes[k] or not data.startswith(b''.join(got)):
+                    bad('read %d returned bytes that are not the next bytes '
+                        'of the source' % k)
+            elif c != chunks[k]:
                 bad('read %d returned %d bytes that differ from the '
                     'source\'s chunk (%d bytes)' % (k, len(c),
                                                     len(chunks[k])))
-        consumed = src.tell() if mode == 'read' else src.pulled
+        consumed = src.tell() if mode in ('read', 'short') else src.pulled
         try:
             w.close()
         except Exception as e:
             bad('close() raised %r' % (e,))
     finally:
+        lg.setLevel(saved_level)
         F.ALL_FORMATS.clear()
         F.ALL_FORMATS.update(originals)
 
@@ -239,7 +259,7 @@ def run_case(col, case, sub):
                 % (expected, 'fails' if kind != 'mismatch' else
                    'is complete without matching', a))
         k, e = raised
-        if k != a:
+        if k != a and mode != 'short':
             bad('stream aborted at read %d, expected at read %d (%s of '
                 'expected format %r)' % (k, a, kind, expected))
         if kind == 'injected' and e is not injected.get(expected):
@@ -252,7 +272,7 @@ def run_case(col, case, sub):
             bad('read %d raised %r for a complete non-matching expected '
                 'format, expected ImageFormatError' % (k, e))
         want_consumed = (sum(len(c) for c in chunks[:a + 1])
-                         if mode == 'read' else a + 1)
+                         if mode in ('read', 'short') else a + 1)
         if consumed != want_consumed:
             bad('after the abort at chunk %d the source position is %d, '
                 'expected %d (nothing further consumed)'
@@ -265,6 +285,13 @@ def run_case(col, case, sub):
             if calls:
                 bad('inspector %s was fed although it is outside '
                     'allowed_formats %r' % (n, allowed))
+            continue
+        if mode == 'short':
+            # grouping into calls is free; the bytes fed must be a prefix of
+            # the source, in order, without gaps or repeats
+            if not data.startswith(b''.join(calls)):
+                bad('inspector %s was fed bytes that are not a prefix of the '
+                    'source' % n)
             continue
         for i, c in enumerate(calls):
             if i >= len(chunks) or c != chunks[i]:
@@ -299,6 +326,7 @@ def run_case(col, case, sub):
                    tuple(sorted(plan.items())), expected,
                    tuple(allowed) if allowed else None), nontrivial,
              ['mode=' + mode, 'faults=%d' % min(len(plan), 3),
+              'loglevel=' + str(case.get('loglevel')),
               'expected=' + ('none' if not expected else 'set'),
               'abort=' + (abort[1] if abort else 'none'),
               'realerr=%d' % min(len(real_err), 2)],
@@ -346,20 +374,25 @@ def single_faults(col, source_idx, mode):
     label, content, sched = fixed_sources()[source_idx]
     from vcheck import imgstrat
     data, _ = imgstrat.realize(content)
-    nchunks = len(chunking.sizes_of(sched, len(data))) + (mode == 'read')
+    nchunks = len(chunking.sizes_of(sched, len(data))) + (mode != 'iter')
+    # the logging configuration must not matter: the iterator runs are done
+    # with the inspector's logger at DEBUG
+    lvl = 'DEBUG' if mode == 'iter' else None
     run_case(col, {'content': content, 'schedule': sched, 'mode': mode,
-                   'plan': {}, 'expected': None, 'allowed': None}, sub)
+                   'plan': {}, 'expected': None, 'allowed': None,
+                   'loglevel': lvl}, sub)
+    kinds = FAULTS if mode != 'short' else FAULTS[:2]
     for expected in (None,) + NAMES:
         run_case(col, {'content': content, 'schedule': sched, 'mode': mode,
-                       'plan': {}, 'expected': expected, 'allowed': None},
-                 sub)
+                       'plan': {}, 'expected': expected, 'allowed': None,
+                       'loglevel': lvl}, sub)
         for name in NAMES:
             for k in range(nchunks):
-                for kind in FAULTS:
+                for kind in kinds:
                     run_case(col, {'content': content, 'schedule': sched,
                                    'mode': mode, 'plan': {name: [k, kind]},
-                                   'expected': expected, 'allowed': None},
-                             sub)
+                                   'expected': expected, 'allowed': None,
+                                   'loglevel': lvl}, sub)
     col.exhaustive.setdefault(sub, True)
 
 
@@ -396,7 +429,8 @@ def sampled(col, seed, max_examples, fmts):
             st.lists(st.sampled_from(NAMES), min_size=1, max_size=6,
                      unique=True)))
         return {'content': content, 'schedule': sched,
-                'mode': draw(st.sampled_from(['read', 'iter'])),
+                'mode': draw(st.sampled_from(['read', 'iter', 'short'])),
+                'loglevel': draw(st.sampled_from([None, 'DEBUG'])),
                 'plan': plan, 'expected': expected, 'allowed': allowed}
     core.run_given(col, cases(), lambda c, case: run_case(c, case, sub),
                    seed, max_examples)
@@ -408,7 +442,7 @@ SMALL = ('raw', 'qcow2', 'vhd', 'vmdk', 'vdi', 'qed', 'gpt', 'luks')
 def tasks(tier, seed):
     out = []
     for i in range(len(fixed_sources())):
-        for mode in ('read', 'iter'):
+        for mode in ('read', 'iter', 'short'):
             out.append(Task('single', single_faults, source_idx=i,
                             mode=mode))
     ex, shards = (250, 6) if tier == 'quick' else (4000, 12)
